@@ -9,7 +9,7 @@
 (* Emit = TRUE prints "OUT <json>" per complete source.                    *)
 EXTENDS Preproc_Origin, Json
 
-CONSTANTS Depth, Emit, Dev
+CONSTANTS Depth, Emit, Dev, NestMode
 
 VARIABLES lay, done, src
 
@@ -18,7 +18,9 @@ Elements == { El("plain", 0), El("lcomment", 0), El("define", 0), El("bcomment",
               Inc(<<El("plain", 0)>>), Inc(<<El("definecont", 1), El("plain", 0)>>),
               Inc(<<Inc(<<El("textcont", 1)>>), El("plain", 0)>>) }
 Pre == { <<>>, <<El("definecont", 1)>>, <<El("bcomment", 3), El("lcomment", 0)>> }
-Nests == { <<>> } \cup { <<p>> : p \in Pre } \cup { <<p[1], p[2]>> : p \in Pre \X Pre }
+NestsAll == { <<>> } \cup { <<p>> : p \in Pre } \cup { <<p[1], p[2]>> : p \in Pre \X Pre }
+NestsFew == { <<>> } \cup { <<p>> : p \in Pre } \cup { << <<>>, <<El("definecont", 1)>> >>, << <<El("definecont", 1)>>, <<El("bcomment", 3), El("lcomment", 0)>> >> }
+Nests == IF NestMode = "few" THEN NestsFew ELSE NestsAll
 Faults == { [kind |-> k, pad |-> p] : k \in {"parse", "runtime", "linemacro"}, p \in {0, 3} }
 NoSrc == [lay |-> <<>>, crlf |-> FALSE, nest |-> <<>>, fault |-> [kind |-> "none", pad |-> 0]]
 
